@@ -20,6 +20,15 @@ LEVEL = "model_checking"
 LIB = lib_errors()
 
 
+def _load(wire):
+    """a well-formed stream must decode: a library error is a violation here, not an escape hatch"""
+    try:
+        return DiameterMessage.load(wire)
+    except LIB as e:
+        if REPLAY: note(raised=f"{type(e).__name__}: {e}")
+        return None
+
+
 def _sym(wire):
     """keep concrete positions concrete: a bytes object over a python list of ints / symbolic ints"""
     return bytes(list(wire))
@@ -35,8 +44,10 @@ def header(h: bytes) -> bool:
     a2 = ref_avp(99999, 0x21, None, b"xyz")
     total = 20 + len(a1) + len(a2)
     wire = _sym(h[0:1] + total.to_bytes(3, "big") + h[1:] + a1 + a2)
-    msgs = DiameterMessage.load(wire)
+    msgs = _load(wire)
     reached()
+    if msgs is None:
+        return False
     if len(msgs) != 1:
         return False
     m = msgs[0]
@@ -67,8 +78,10 @@ def stream(ids: List[int], fl: List[int], blob: bytes) -> bool:
         wires.append(ref_msg(1, 0x80 if i % 2 == 0 else 0x40, 300 + i, 16777251, ids[2 * i], ids[2 * i + 1], avps))
         descr.append(d)
     wire = _sym(b"".join(wires))
-    msgs = DiameterMessage.load(wire)
+    msgs = _load(wire)
     reached()
+    if msgs is None:
+        return False
     if REPLAY: note(wire=wire.hex(), decoded=len(msgs))
     if len(msgs) != len(descr):
         return False
@@ -99,8 +112,10 @@ def known(ints: List[int], blob: bytes, hbh: int) -> bool:
     post = ref_avp(99998, 0x80, 9, b"c")
     msg_wire = ref_msg(1, 0xc0, 316, 16777251, hbh, 5, [pre_, mid, post])
     wire = _sym(msg_wire)
-    msgs = DiameterMessage.load(wire)
+    msgs = _load(wire)
     reached()
+    if msgs is None:
+        return False
     if len(msgs) != 1 or len(msgs[0].avps) != 3:
         return False
     a = msgs[0].avps[1]
@@ -127,8 +142,10 @@ def known_flags(fl: int, data: bytes) -> bool:
     flags = fl + (128 if vendor is not None else 0)
     one = ref_avp(code, flags, vendor, data)
     wire = _sym(ref_msg(1, 0x40, 272, 4, 1, 2, [one]))
-    msgs = DiameterMessage.load(wire)
+    msgs = _load(wire)
     reached()
+    if msgs is None:
+        return False
     a = msgs[0].avps[0]
     if REPLAY: note(cls=P["cls"], wire_flags=flags, decoded_flags=a.get_flags(), redump_equal=msgs[0].dump() == wire)
     return type(a) is cls and a.get_flags() == flags and a.data == data and msgs[0].dump() == wire
@@ -149,8 +166,10 @@ def nested_unknown(fl: List[int], blob: bytes) -> bool:
     inner = G.ref_for(FailedAvpAVP, m1 + m2)
     outer = G.ref_for(FailedAvpAVP, m0 + inner)
     wire = _sym(ref_msg(1, 0, 280, 0, 9, 9, [outer]))
-    msgs = DiameterMessage.load(wire)
+    msgs = _load(wire)
     reached()
+    if msgs is None:
+        return False
     top = msgs[0].avps[0]
     ok = type(top) is FailedAvpAVP and len(top.avps) == 2 and type(top.avps[0]) is DiameterAVP and type(top.avps[1]) is FailedAvpAVP
     if not ok:
@@ -182,7 +201,11 @@ def queries(tier, seed):
     shapes = {"one": [[[9001, None, 3]]],
               "two_msgs": [[[9001, None, 1], [9002, 10415, 2]], [[9003, None, 0]]],
               "three_msgs": [[[9001, None, 4]], [[9002, 99, 3], [9001, None, 5]], [[9004, None, 2]]],
-              "residues": [[[9001, None, 0], [9002, 7, 1], [9003, None, 2], [9004, 7, 3]]]}
+              "residues": [[[9001, None, 0], [9002, 7, 1], [9003, None, 2], [9004, 7, 3]]],
+              # (vendor, code) pairs that are unknown although the code alone is a dictionary code: an unknown vendor, a known
+              # vendor whose dictionary lacks the code, vendor 0 spelled out, and a 3GPP code without / with another vendor
+              "code_collisions": [[[264, 193, 3], [264, 10415, 2], [1407, None, 4], [1407, 193, 1]]],
+              "empty_data": [[[9001, None, 0], [9002, 10415, 0]], [[264, 5, 0]]]}
     if tier != "quick":
         for a in range(4):
             for b in range(4):
